@@ -35,104 +35,104 @@ type vfResult struct {
 	Notes        []string ` + "`json:\"notes\"`" + `
 }
 
-type vfStop struct{ why string }
+type vfRtStop struct{ why string }
 
-var vfCur *vfCase
-var vfRes *vfResult
-var vfCnt map[string]int
+var vfRtCur *vfCase
+var vfRtRes *vfResult
+var vfRtCnt map[string]int
 
-func vfName(name string) string {
-	vfCnt[name]++
-	if c := vfCnt[name]; c > 1 {
+func vfRtName(name string) string {
+	vfRtCnt[name]++
+	if c := vfRtCnt[name]; c > 1 {
 		return name + "#" + vfstrconv.Itoa(c)
 	}
 	return name
 }
 
-func vfInput(name string) string {
-	n := vfName(name)
-	v, ok := vfCur.Inputs[n]
+func vfRtInput(name string) string {
+	n := vfRtName(name)
+	v, ok := vfRtCur.Inputs[n]
 	if !ok {
-		vfRes.MissingInput = n
-		panic(vfStop{"missing input " + n})
+		vfRtRes.MissingInput = n
+		panic(vfRtStop{"missing input " + n})
 	}
 	return v
 }
 
-func vfUint(name string, bits int) uint64 {
-	s := vfInput(name)
+func vfRtUint(name string, bits int) uint64 {
+	s := vfRtInput(name)
 	v, err := vfstrconv.ParseUint(s, 10, bits)
 	if err != nil {
 		// maybe negative for signed
 		i, err2 := vfstrconv.ParseInt(s, 10, 64)
 		if err2 != nil {
-			panic(vfStop{"bad input " + name + "=" + s})
+			panic(vfRtStop{"bad input " + name + "=" + s})
 		}
 		return uint64(i)
 	}
 	return v
 }
 
-func vfU8(name string) uint8   { return uint8(vfUint(name, 8)) }
-func vfU16(name string) uint16 { return uint16(vfUint(name, 16)) }
-func vfU32(name string) uint32 { return uint32(vfUint(name, 32)) }
-func vfU64(name string) uint64 { return vfUint(name, 64) }
+func vfU8(name string) uint8   { return uint8(vfRtUint(name, 8)) }
+func vfU16(name string) uint16 { return uint16(vfRtUint(name, 16)) }
+func vfU32(name string) uint32 { return uint32(vfRtUint(name, 32)) }
+func vfU64(name string) uint64 { return vfRtUint(name, 64) }
 func vfI64(name string) int64 {
-	s := vfInput(name)
+	s := vfRtInput(name)
 	i, err := vfstrconv.ParseInt(s, 10, 64)
 	if err != nil {
-		panic(vfStop{"bad input " + name + "=" + s})
+		panic(vfRtStop{"bad input " + name + "=" + s})
 	}
 	return i
 }
 func vfI32(name string) int32 { return int32(vfI64(name)) }
 func vfInt(name string) int   { return int(vfI64(name)) }
-func vfBool(name string) bool { return vfInput(name) == "1" }
+func vfBool(name string) bool { return vfRtInput(name) == "1" }
 func vfBytes(name string, n int) []byte {
-	s := vfInput(name)
+	s := vfRtInput(name)
 	b, err := vfhex.DecodeString(s)
 	if err != nil || len(b) != n {
-		panic(vfStop{"bad bytes input " + name})
+		panic(vfRtStop{"bad bytes input " + name})
 	}
 	return b
 }
 func vfBig(name string, bits int) *vfbig.Int {
-	s := vfInput(name)
+	s := vfRtInput(name)
 	v, ok := new(vfbig.Int).SetString(s, 10)
 	if !ok {
-		panic(vfStop{"bad big input " + name})
+		panic(vfRtStop{"bad big input " + name})
 	}
 	return v
 }
 func vfChoose(name string, lo, hi int) int {
-	s := vfInput(name)
+	s := vfRtInput(name)
 	i, _ := vfstrconv.Atoi(s)
 	return i
 }
 func vfConcrete(x int, lo, hi int) int { return x }
 func vfAssume(c bool) {
 	if !c {
-		vfRes.AssumeFailed = true
-		panic(vfStop{"assumption not met"})
+		vfRtRes.AssumeFailed = true
+		panic(vfRtStop{"assumption not met"})
 	}
 }
 func vfAssert(c bool, id string) {
-	vfRes.Reached = append(vfRes.Reached, "assert:"+id)
+	vfRtRes.Reached = append(vfRtRes.Reached, "assert:"+id)
 	if !c {
-		vfRes.Failed = append(vfRes.Failed, id)
+		vfRtRes.Failed = append(vfRtRes.Failed, id)
 	}
 }
 func vfFail(id string) {
-	vfRes.Reached = append(vfRes.Reached, "assert:"+id)
-	vfRes.Failed = append(vfRes.Failed, id)
+	vfRtRes.Reached = append(vfRtRes.Reached, "assert:"+id)
+	vfRtRes.Failed = append(vfRtRes.Failed, id)
 }
 func vfKnown(sig string, c bool) {}
-func vfCover(id string)          { vfRes.Reached = append(vfRes.Reached, id) }
+func vfCover(id string)          { vfRtRes.Reached = append(vfRtRes.Reached, id) }
 func vfSymbolic() bool           { return false }
 func vfYield()                   {}
 func vfFreeze(x any)             {}
 func vfThaw(x any)               {}
-func vfTier() int                { return vfCur.Tier }
+func vfTier() int                { return vfRtCur.Tier }
 func vfAnd(a, b bool) bool       { return a && b }
 func vfOr(a, b bool) bool        { return a || b }
 func vfImplies(a, b bool) bool   { return !a || b }
@@ -164,18 +164,18 @@ func vfNote(k string, v any) {
 	default:
 		s = vffmt.Sprintf("%v", v)
 	}
-	vfRes.Notes = append(vfRes.Notes, k+"="+s)
+	vfRtRes.Notes = append(vfRtRes.Notes, k+"="+s)
 }
 
-func vfExec(c *vfCase, fn func()) (res *vfResult) {
+func vfRtExec(c *vfCase, fn func()) (res *vfResult) {
 	res = &vfResult{ID: c.ID, Harness: c.Harness}
-	vfCur, vfRes, vfCnt = c, res, map[string]int{}
+	vfRtCur, vfRtRes, vfRtCnt = c, res, map[string]int{}
 	done := make(chan struct{})
 	go func() {
 		defer close(done)
 		defer func() {
 			if r := recover(); r != nil {
-				if _, ok := r.(vfStop); ok {
+				if _, ok := r.(vfRtStop); ok {
 					return
 				}
 				res.Panic = vffmt.Sprintf("%v\n%s", r, vfdebug.Stack())
@@ -220,7 +220,7 @@ func vfReplayMain(t vfTB, hs map[string]func()) {
 			out = append(out, &vfResult{ID: c.ID, Harness: c.Harness, Panic: "unknown harness"})
 			continue
 		}
-		r := vfExec(c, fn)
+		r := vfRtExec(c, fn)
 		out = append(out, r)
 		if r.Timeout {
 			break // a hung goroutine may keep interfering
